@@ -456,7 +456,7 @@ def run(tier="quick", replay=None):
         g = prog.fn(ent)
         if g is None:
             continue
-        direct = {callee_of(t) for f2 in prog.family(ent) for _, t in f2.calls()}
+        direct = {callee_of(t) for f2 in prog.family(ent) for _, t in f2.calls()} | {callee_of(t) for _, t in view(g).calls()}
         R.check(CLI_NEW in direct and CLI_COMPILE in direct and COMPILE_FILE not in direct and LIB_CORE not in direct,
                 "R11.c", "R11.c|entry|%s" % ent, "%s:%s" % (g.file, g.line),
                 "auto: derives options with RunAndCompileInputData::new and compiles with compile_modern",
